@@ -128,6 +128,10 @@ std::uint16_t read_u16(const std::vector<std::uint8_t>& buffer, std::size_t offs
 }  // namespace
 
 std::string encode_manifest(const Manifest& manifest) {
+    if (manifest.shards.size() > std::numeric_limits<std::uint8_t>::max()) {
+        throw std::length_error("manifest shard count exceeds limit");
+    }
+
     if (manifest.metadata.size() > std::numeric_limits<std::uint8_t>::max()) {
         throw std::length_error("manifest metadata entry count exceeds limit");
     }
